@@ -142,6 +142,8 @@ def buffer_part(chk, thorough, rng):
 
 
 def oid_of(i, arcs):
+    if arcs <= 2:
+        return "%d.%d" % (i % 3, (i // 3) % 40)          # two-arc names: one content octet, the smallest varbind there is (7 octets)
     return ".".join(["1", "3", "6", "1", "4", "1"] + [str(100000 + (i * 131 + k) % 50000) for k in range(arcs - 6)])
 
 
@@ -196,6 +198,11 @@ def size_sweep(chk, thorough, rng, cap):
         plans.append(("v2c-longoid", rawdrv.Cfg("v2c", community="public"), [(-L, 1), (-L, 2), (-L, 3)]))
         if L % 3 == 0:
             plans.append(("v3-md5-des", std["v3-md5-des"], [(-L, 1), (-L, 2)]))
+    # the smallest varbinds (two-arc names, 7 octets each): how many OIDs fit is decided by the buffer, not by a count
+    per = cap / 7.0
+    for nm, cfg in (("v2c-twoarc", rawdrv.Cfg("v2c", community="public")), ("v1-twoarc", rawdrv.Cfg("v1", community="p")), ("v3-noauth-twoarc", std["v3-noauth"])):
+        ns = [int(per) + d for d in (-80, -70, -60, -40, -20, -10, -8, -6, -5, -4, -3, -2, -1, 0, 1, 2, 10)]
+        plans.append((nm, cfg, [(n, 2) for n in (ns if nm == "v2c-twoarc" or thorough else ns[::3])]))
     rec = trace.Recorder("c17api")
     runs = []
     for name, cfg, reqs in plans:
@@ -369,7 +376,9 @@ def replay(path):
                 return 0
             print("VIOLATION property=C17 replay=%s" % path)
             return 1
-        if info["cfg"].startswith("v3"):
+        if info["cfg"].endswith("-twoarc"):
+            cfg = {"v2c-twoarc": rawdrv.Cfg("v2c", community="public"), "v1-twoarc": rawdrv.Cfg("v1", community="p"), "v3-noauth-twoarc": std["v3-noauth"]}[info["cfg"]]
+        elif info["cfg"].startswith("v3"):
             c = std[info["cfg"]]
             cfg = rawdrv.Cfg("v3", user="u" * L, engine=e, auth=c.auth, akt=c.akt, akm=c.akm, priv=c.priv, pkt=c.pkt, pkm=c.pkm)
         else:
